@@ -229,7 +229,14 @@ def gen_C05(rng, tier):
                      trace_kw={"outlier_p": 0.7, "nobs": rng.choice([3, 4, 5, 6, 7, 8])})
         d["cfg"].setdefault("max_dist", 2.5 * d["world"].get("unit", 1.0))
         return with_debug_log(rng, d)
-    return with_debug_log(rng, base_doc(rng, prof, latlon_p=0.35, world_kw={"linked_p": 0.05, "zero_len_p": 0.12}))
+    world_kw = {"linked_p": 0.05, "zero_len_p": 0.12}
+    latlon_p = 0.35
+    if rng.random() < 0.08:
+        # a map drawn in very small units (raw degrees used as planar coordinates, kilometres, ...): roads of
+        # about 1e-4 units; every distance parameter scales with the unit
+        world_kw["unit"] = 2.0 ** -14
+        latlon_p = 0.0
+    return with_debug_log(rng, base_doc(rng, prof, latlon_p=latlon_p, world_kw=world_kw, big_p=0.0 if "unit" in world_kw else 0.08))
 
 
 def eval_C05(doc):
